@@ -13,6 +13,7 @@ package main
 //   "lock c.writeLock", "unlock c.writeLock", "go <fn>", "close signal"
 
 import (
+	"regexp"
 	"fmt"
 	"go/types"
 	"math/big"
@@ -39,6 +40,38 @@ func init() {
 	builtinModels["(*sync.RWMutex).RUnlock"] = mutexOp("runlock", false)
 	for k := range builtinModels {
 		builtinWrites[k] = func(x *Exec, st *State) []heapKey { return nil }
+	}
+}
+
+// The rest of package sync/atomic (functions on plain words and the methods of the typed atomics):
+// one generic model. An operation is an atomic point (a trace event) only if the field it works on
+// is declared `atomic` in a contract file - the operations the contracts speak about. Operations on
+// other words (a statistics counter added later, say) are no events: a load, add or swap returns an
+// arbitrary value, a store is not remembered, nothing else changes. That such a field is used
+// atomically everywhere is the business of the C12 coverage obligation, not of the traces.
+var atomicFamily = regexp.MustCompile(`^(?:sync/atomic\.(Load|Store|Add|Swap|CompareAndSwap|And|Or)(?:Int32|Int64|Uint32|Uint64|Uintptr|Pointer)|\(\*sync/atomic\.(?:Int32|Int64|Uint32|Uint64|Uintptr|Bool|Pointer\[.*\])\)\.(Load|Store|Add|Swap|CompareAndSwap|And|Or))$`)
+
+func lookupBuiltinModel(key string) builtinModel {
+	if bm, ok := builtinModels[key]; ok {
+		return bm
+	}
+	m := atomicFamily.FindStringSubmatch(key)
+	if m == nil {
+		return nil
+	}
+	op := strings.ToLower(m[1] + m[2])
+	if op == "compareandswap" {
+		op = "cas"
+	}
+	return func(x *Exec, st *State, fr *Frame, site ssa.Instruction, fn *ssa.Function, args []*Val, kn func(*State, []*Val), kp func(*State, *Val)) {
+		var res []*Val
+		if r := fn.Signature.Results(); r.Len() == 1 {
+			res = []*Val{st.freshVal("atomic."+op, r.At(0).Type())}
+		}
+		if x.atomicDecl(ptrOf(args[0])) != nil {
+			x.atomicEvent(st, op+" "+callArgDesc(site, 0), args[1:], res)
+		}
+		kn(st, res)
 	}
 }
 
@@ -142,11 +175,17 @@ func atomicLoad(x *Exec, st *State, fr *Frame, site ssa.Instruction, fn *ssa.Fun
 		st.assume(and(m.cmp(tokenLE, cur.S, v.S, ii), m.cmp(tokenLE, v.S, m.lit(pow2(0), ii), ii)))
 		st.storeTo(p, v) // what we now know
 	}
-	x.atomicEvent(st, "load "+callArgDesc(site, 0), nil, []*Val{v})
+	if x.atomicDecl(p) != nil {
+		x.atomicEvent(st, "load "+callArgDesc(site, 0), nil, []*Val{v})
+	}
 	kn(st, []*Val{v})
 }
 
 func atomicStore(x *Exec, st *State, fr *Frame, site ssa.Instruction, fn *ssa.Function, args []*Val, kn func(*State, []*Val), kp func(*State, *Val)) {
+	if x.atomicDecl(ptrOf(args[0])) == nil {
+		kn(st, nil) // not a declared atomic field: no atomic point, the value is not tracked
+		return
+	}
 	x.atomicEvent(st, "store "+callArgDesc(site, 0), []*Val{args[1]}, nil)
 	st.storeTo(ptrOf(args[0]), args[1])
 	kn(st, nil)
@@ -161,6 +200,10 @@ func atomicCAS(x *Exec, st *State, fr *Frame, site ssa.Instruction, fn *ssa.Func
 		ii, _ := basicIntInfo(args[1].T)
 		cur := st.loadFrom(st.heap, p)
 		st.assume(implies(ok.S, m.cmp(tokenLE, cur.S, args[1].S, ii)))
+	}
+	if x.atomicDecl(p) == nil {
+		kn(st, []*Val{ok}) // not a declared atomic field: no atomic point, the value is not tracked
+		return
 	}
 	x.atomicEvent(st, "cas "+callArgDesc(site, 0), []*Val{args[1], args[2]}, []*Val{ok})
 	// on success the field holds the new value (as far as this path knows)
@@ -185,7 +228,9 @@ func atomicCAS(x *Exec, st *State, fr *Frame, site ssa.Instruction, fn *ssa.Func
 
 func atomicAdd(x *Exec, st *State, fr *Frame, site ssa.Instruction, fn *ssa.Function, args []*Val, kn func(*State, []*Val), kp func(*State, *Val)) {
 	v := st.freshVal("atomic.add", fn.Signature.Results().At(0).Type())
-	x.atomicEvent(st, "add "+callArgDesc(site, 0), []*Val{args[1]}, []*Val{v})
+	if x.atomicDecl(ptrOf(args[0])) != nil {
+		x.atomicEvent(st, "add "+callArgDesc(site, 0), []*Val{args[1]}, []*Val{v})
+	}
 	kn(st, []*Val{v})
 }
 
